@@ -171,7 +171,7 @@ class DistributiveFactorOutRule(BaseRule):
         if not f:
             return False
 
-        if f.best == 1 and not f.variable and not f.exponent:
+        if f.best == 1 and not f.variable and f.exponent is None:
             return False
 
         return True
